@@ -841,6 +841,16 @@ func (j *judgeCtx) checkStatus() {
 		if c.K != opStatus || c.Ret == 0 {
 			continue
 		}
+		if c.Arg == 2 {
+			// the job object of a refused submission, as the queue that refused it sees it
+			if c.Str != "Closed" || !c.OK {
+				j.add("C16.c", c.Ret, "submission %d was refused by its queue, the submitting call has returned, but its job object still reports %q (IsClosed=%v) at rest: a rejected job must end Closed", c.Sub, c.Str, c.OK)
+			}
+			continue
+		}
+		if c.Sub < 0 {
+			continue
+		}
 		s := wd.subs[c.Sub]
 		rk, ok := statusRank[c.Str]
 		if !ok {
